@@ -67,6 +67,11 @@ def check(case):
     if len(trailing) == 1 and "trail-in-tx" in feats:
         cls.append("nt:trail-1byte-in-tx")
     f = Fails()
+    if case.get("prior"):
+        # history: a near-identical transaction (other locktime; legacy twin of a segwit tx) is deserialised first
+        cls.append("nt:after-related-tx")
+        attempt(bits.tx.tx_deser, txref.serialize(dict(rtx, locktime=(rtx["locktime"] + 1) % 2**32)), include_raw=True)
+        attempt(bits.tx.tx_deser, txref.serialize(dict(rtx, segwit=False)), include_raw=True)
 
     # context 1: alone
     r = attempt(bits.tx.tx_deser, raw, include_raw=True)
@@ -130,7 +135,7 @@ def cases(draw):
         trail["data"] = draw(st.binary(min_size=1, max_size=64)).hex()
     elif tk == "tx2":
         trail["tx"] = draw(gen_tx.tx_case("small", max_io=2))
-    case = {"tx": tx, "trail": trail}
+    case = {"tx": tx, "trail": trail, "prior": draw(st.integers(0, 3)) == 0}
     if draw(st.integers(0, 2)) == 0:
         n_other = draw(st.integers(0, 4))
         case["block"] = {
@@ -149,7 +154,7 @@ def _targets(tier):
             check,
             strategy=lambda tier: cases(),
             budget={"quick": 6000, "thorough": 200000},
-            required=["nt:segwit-nonfinal-seq", "nt:trail-1byte-in-tx", "nt:trail-same-tx", "nt:in-block", "nt:block-dup-tx", "nt:trail-in-tx", "nt:coinbase-shaped-segwit", "nt:coinbase-shaped-legacy"],
+            required=["nt:segwit-nonfinal-seq", "nt:trail-1byte-in-tx", "nt:trail-same-tx", "nt:in-block", "nt:block-dup-tx", "nt:trail-in-tx", "nt:coinbase-shaped-segwit", "nt:coinbase-shaped-legacy", "nt:after-related-tx"],
         )
     ]
 
